@@ -453,13 +453,28 @@ func (e *FnEnc) encodeBlock(b *ssa.BasicBlock) {
 	}
 }
 
+// clauseCannotBePlaced: the clause was written (and proved) against the unchanged code; on the code at hand it
+// names something that is not there any more or has another shape - a vanished variable or field, a loop that
+// no longer ranges over a map, a value of another type.
+func clauseCannotBePlaced(msg string) bool {
+	if !strings.Contains(msg, "contract expression") {
+		return false
+	}
+	for _, pat := range []string{"unknown identifier", ": no field ", "visited(k) outside", "cannot select", "is not a pointer", "not a slice", "not a map", "indexing", "wrong shape", "not a struct"} {
+		if strings.Contains(msg, pat) {
+			return true
+		}
+	}
+	return false
+}
+
 // evalPlaced evaluates a contract clause on the current code. A clause that names a struct field or a variable
 // the code no longer has cannot be placed (what was proved on the unchanged tree does not transfer): that is a
 // failed structural obligation, reported like any other violation, instead of an engine error for the whole check.
 func (e *FnEnc) evalPlaced(c *Clause, env *specEnv, what string) (res string, placed bool) {
 	defer func() {
 		if r := recover(); r != nil {
-			if u, ok := r.(unsupported); ok && (strings.Contains(u.msg, ": no field ") || strings.Contains(u.msg, "unknown identifier")) {
+			if u, ok := r.(unsupported); ok && clauseCannotBePlaced(u.msg) {
 				e.structural = append(e.structural, fmt.Sprintf("%s [%s] cannot be placed on the current code: %s", what, c.Label, u.msg))
 				res, placed = "true", false
 				return
@@ -476,7 +491,7 @@ func (e *FnEnc) evalPlaced(c *Clause, env *specEnv, what string) (res string, pl
 func (e *FnEnc) evalLoopInv(c *Clause, env *specEnv, ordinal int) (res string) {
 	defer func() {
 		if r := recover(); r != nil {
-			if u, ok := r.(unsupported); ok && strings.Contains(u.msg, "unknown identifier") {
+			if u, ok := r.(unsupported); ok && clauseCannotBePlaced(u.msg) {
 				msg := fmt.Sprintf("loop %d invariant [%s] cannot be placed on the current code: %s", ordinal, c.Label, u.msg)
 				seen := false
 				for _, s := range e.structural {
@@ -590,6 +605,9 @@ func (e *FnEnc) encodeExit() {
 		return
 	}
 	env := e.exitEnv()
+	// the vacuity cover ("the exit is reachable") is asked BEFORE the postconditions are assumed: a postcondition
+	// that fails on changed code would otherwise make the exit look unreachable and turn a violation into exit 2
+	e.coverAsserts = len(e.asserts)
 	for _, c := range e.c.Ensures {
 		t, placed := e.evalPlaced(c, env, "postcondition")
 		if !placed {
